@@ -92,6 +92,25 @@ def copyBack : Nat → Nat → Array Nat → Array Nat
   | 0, _, out => out
   | len + 1, dist, out => copyBack len dist (out.push (out.getD (out.size - dist) 0))
 
+/-- §3.2.5 a length symbol (257 … 285) with its extra bits, then the distance code and its extra bits:
+copy `length` bytes from `distance` back -/
+@[irreducible] def lenDist (dh : Huff) (sym : Nat) (r : BR) (out : Array Nat) : Option (Array Nat × BR) :=
+  if sym - 257 ≥ 29 then none
+  else
+    match readBitsLE (lext.getD (sym - 257) 0) r with
+    | none => none
+    | some (eb, r) =>
+      match decodeSym dh r with
+      | none => none
+      | some (ds, r) =>
+        if ds ≥ 30 then none
+        else
+          match readBitsLE (dext.getD ds 0) r with
+          | none => none
+          | some (eb2, r) =>
+            if dbase.getD ds 0 + eb2 > out.size then none
+            else some (copyBack (lbase.getD (sym - 257) 0 + eb) (dbase.getD ds 0 + eb2) out, r)
+
 /-- §3.2.3 decode literal/length and distance codes until end-of-block -/
 def codes (lh dh : Huff) : Nat → BR → Array Nat → Option (Array Nat × BR)
   | 0, _, _ => none
@@ -101,23 +120,10 @@ def codes (lh dh : Huff) : Nat → BR → Array Nat → Option (Array Nat × BR)
     | some (sym, r) =>
       if sym < 256 then codes lh dh fuel r (out.push sym)
       else if sym = 256 then some (out, r)
-      else if sym - 257 ≥ 29 then none
       else
-        match readBitsLE (lext.getD (sym - 257) 0) r with
+        match lenDist dh sym r out with
         | none => none
-        | some (eb, r) =>
-          let len := lbase.getD (sym - 257) 0 + eb
-          match decodeSym dh r with
-          | none => none
-          | some (ds, r) =>
-            if ds ≥ 30 then none
-            else
-              match readBitsLE (dext.getD ds 0) r with
-              | none => none
-              | some (eb2, r) =>
-                let dist := dbase.getD ds 0 + eb2
-                if dist > out.size then none
-                else codes lh dh fuel r (copyBack len dist out)
+        | some (out, r) => codes lh dh fuel r out
 
 def fixedLit : Huff :=
   mkHuff ((List.replicate 144 8 ++ List.replicate 112 9 ++ List.replicate 24 7 ++ List.replicate 8 8).toArray)
